@@ -141,18 +141,16 @@ func (f *fuzzer) worker() {
 // and measures the PEAK LIVE HEAP: a sampler goroutine forces complete
 // collections back to back (runtime.GC returns after mark and sweep) and
 // reads the heap-objects metric after each one.  Objects allocated while a
-// cycle runs are kept by that cycle, so a short-lived huge allocation is seen
-// too; what the number still contains is the garbage produced during one
-// cycle, which is noise: the minimum over three repetitions is used.
+// mark phase runs are kept by that cycle, so a short-lived huge allocation is
+// seen with high probability as well (two repetitions, the larger value
+// counts).  What the number still contains is the garbage produced during one
+// cycle (observed up to ~60 MiB for the pretty-printer on a loaded machine,
+// true live heap a few MiB): hence the larger flat part of liveBudget.
 func (f *fuzzer) measureLive(j job) outcome {
-	var best outcome
-	for rep := 0; rep < 3; rep++ {
-		o := f.measureLiveOnce(j)
-		if rep == 0 || o.alloc < best.alloc {
+	best := f.measureLiveOnce(j)
+	if !best.panicked {
+		if o := f.measureLiveOnce(j); o.alloc > best.alloc {
 			best = o
-		}
-		if o.panicked || best.alloc <= liveBudget(len(j.in))/2 {
-			break
 		}
 	}
 	return best
@@ -336,6 +334,9 @@ func (f *fuzzer) one(e *entry, in []byte, class string) bool {
 
 func (f *fuzzer) seedsFor(cp *corpus, e *entry) [][]byte {
 	s := cp.groups[e.group]
+	if strings.Contains(e.name, "WithOffsets") {
+		s = append(append([][]byte(nil), s...), cp.groups["synth"]...)
+	}
 	if strings.HasPrefix(e.group, "msg:") && e.id >= 0 {
 		// prefer vectors of this message type
 		var own [][]byte
@@ -369,7 +370,7 @@ func runFuzz(c *vh.Ctx, only string, rp *freplay) {
 		os.Exit(3)
 	}
 	adv := adversarial(c.Thorough())
-	perEntry := c.Pick(30, 700)
+	perEntry := c.Pick(20, 600)
 	for i := range es {
 		e := &es[i]
 		if only != "" && !strings.Contains(e.name, only) {
@@ -379,20 +380,22 @@ func runFuzz(c *vh.Ctx, only string, rp *freplay) {
 		mu := &mutator{r: r, c: cp}
 		seeds := f.seedsFor(cp, e)
 		// 1. the seeds themselves (mostly valid), capped
-		for k, s := range seeds {
-			if k >= c.Pick(12, 60) {
-				break
+		capSeeds := c.Pick(16, 80)
+		for k := 0; k < len(seeds) && k < capSeeds; k++ {
+			s := seeds[k]
+			if len(seeds) > capSeeds {
+				s = seeds[(k*len(seeds))/capSeeds]
 			}
 			if !f.one(e, s, "seed") {
 				break
 			}
 		}
 		// 2. fixed adversarial inputs: nesting, inflated lengths, chunk counts.
-		// Quick tier: every entry point gets a seed-dependent quarter of the list
+		// Quick tier: every entry point gets a seed-dependent sixth of the list
 		// (entries of weight >= 3 and the thorough tier get all of it).
 		for k, a := range adv {
 			if !c.Thorough() && e.weight < 3 {
-				if len(a.b) > 70000 || (k+i+int(c.Seed))%4 != 0 {
+				if len(a.b) > 70000 || (k+i+int(c.Seed))%6 != 0 {
 					continue
 				}
 			}
@@ -452,7 +455,7 @@ func (f *fuzzer) report(es []entry, cp *corpus) {
 		panics += s.panics
 	}
 	sort.Slice(rows, func(i, j int) bool { return rows[i].s.maxAlloc > rows[j].s.maxAlloc })
-	c.Res.Notes = append(c.Res.Notes, fmt.Sprintf("FUZZING (not a proof): %d cases over %d public entry points: %d values, %d errors, %d panics; violation rule: panic, wall time > 5 s + 100 us/byte, or peak live heap > 256 MiB + 4096 B per input byte (first stage: cumulative allocation of the call <= 64 MiB + 4096 B/byte settles it; %d cases needed the second stage = forced-GC peak-live measurement, min of 3)",
+	c.Res.Notes = append(c.Res.Notes, fmt.Sprintf("FUZZING (not a proof): %d cases over %d public entry points: %d values, %d errors, %d panics; violation rule: panic, wall time > 5 s + 100 us/byte, or peak live heap > 256 MiB + 4096 B per input byte (first stage: cumulative allocation of the call <= 64 MiB + 4096 B/byte settles it; %d cases needed the second stage = forced-GC peak-live measurement, max of 2)",
 		f.total, len(f.stats), values, errs, panics, f.restaged))
 	for i, r := range rows {
 		if i >= 8 {
